@@ -40,6 +40,17 @@ type C12Case struct {
 	// Late files (indices len(Init) .. len(Init)+Late-1) do not exist at first: the first update that
 	// names one creates it. Include directives may name them before (dangling) or match them by pattern.
 	Late int `json:"late,omitempty"`
+	// RootName != "": the first file carries this name instead of main.journal, so that the workspace has
+	// to find its root journal by the include graph of the directory. The name sorts before all others and
+	// no file includes it: it is the root at every moment, for the workspace under test and for a fresh one.
+	RootName string `json:"root_name,omitempty"`
+}
+
+func (c *C12Case) name(i int) string {
+	if i == 0 && c.RootName != "" {
+		return c.RootName
+	}
+	return gen.WSNames[i]
 }
 
 func (c *C12Case) loader() *include.Loader {
@@ -277,7 +288,7 @@ func c12Check(c *C12Case) (ds []ev.Discrepancy, cls []string) {
 	cur := make([]*m.Journal, n+c.Late)
 	write := func(i int) string {
 		txt := m.Render(cur[i]).Text
-		if err := os.WriteFile(filepath.Join(root, gen.WSNames[i]), []byte(txt), 0o644); err != nil {
+		if err := os.WriteFile(filepath.Join(root, c.name(i)), []byte(txt), 0o644); err != nil {
 			panic(err)
 		}
 		return txt
@@ -324,7 +335,7 @@ func c12Check(c *C12Case) (ds []ev.Discrepancy, cls []string) {
 		if c.MaxSize > 0 && (before > c.MaxSize) != (len(txt) > c.MaxSize) {
 			classes["update-crosses-size-limit"] = true
 		}
-		path := filepath.Join(root, gen.WSNames[op.File])
+		path := filepath.Join(root, c.name(op.File))
 		// what didChange / didSave do
 		inc.UpdateFile(path, txt)
 		loader.InvalidateFile(path)
@@ -342,6 +353,9 @@ func c12Check(c *C12Case) (ds []ev.Discrepancy, cls []string) {
 	}
 	if c.Depth > 0 {
 		classes["depth-limit"] = true
+	}
+	if c.RootName != "" {
+		classes["root-found-by-include-graph"] = true
 	}
 	if c.MaxSize > 0 {
 		classes["size-limit"] = true
@@ -455,6 +469,26 @@ func TestC12(t *testing.T) {
 			cur[f] = j
 			c.Ops = append(c.Ops, C12Op{File: f, Journal: j})
 		}
+		if !disabled("c12.root-by-graph") && rapid.IntRange(0, 3).Draw(t, "rootbygraph") == 0 {
+			c.RootName = "00-all.journal"
+			// nothing includes the root journal (an include of main.journal would name a file that does not exist)
+			strip := func(j *m.Journal) *m.Journal {
+				nj := &m.Journal{NL: j.NL}
+				for _, e := range j.Entries {
+					if e.Dir != nil && e.Dir.Kind == "include" && strings.HasSuffix(e.Dir.Path, "main.journal") {
+						continue
+					}
+					nj.Entries = append(nj.Entries, e)
+				}
+				return nj
+			}
+			for i := range c.Init {
+				c.Init[i] = strip(c.Init[i])
+			}
+			for i := range c.Ops {
+				c.Ops[i].Journal = strip(c.Ops[i].Journal)
+			}
+		}
 		if !disabled("c12.limits") {
 			switch rapid.IntRange(0, 5).Draw(t, "limits") {
 			case 0:
@@ -517,3 +551,84 @@ func candidateFormats(r *include.ResolvedJournal, sym string) []formatter.Number
 }
 
 type astCommodityDirective = ast.CommodityDirective
+
+// TestC12Walk: long walks over a small state space. Four files; every update gives one file a new
+// include list (a subset of the other three, in a drawn order) and makes it short or long; a depth
+// limit of 2..3 and a size limit between the two lengths are in force. Sequences that need several
+// particular steps in a row (a file leaves because of one limit, its surroundings change, it comes
+// back under the other) are reached because there is little else to do.
+func c12WalkJournal(f int, incs []int, long bool, ver int) *m.Journal {
+	j := &m.Journal{NL: "\n"}
+	for _, k := range incs {
+		j.Entries = append(j.Entries, m.Entry{Dir: &m.Directive{Kind: "include", Path: walkRel(f, k)}})
+	}
+	acct := fmt.Sprintf("assets:f%dv%d", f, ver)
+	j.Entries = append(j.Entries,
+		m.Entry{Dir: &m.Directive{Kind: "account", Account: acct}, Blank: 1},
+		m.Entry{Tx: &m.Tx{Date: m.Date{Y: 2024, M: 1, D: f + 1, Sep: "-", Pad: true}, Payee: fmt.Sprintf("payee %d", f),
+			Body: []m.BodyItem{{P: &m.Posting{Account: acct, Amt: &m.Amount{Q: m.Num{Mant: fmt.Sprint(ver + 1)}, Sym: "EUR", SymSpace: true}, Indent: "    ", Sep: "  "}},
+				{P: &m.Posting{Account: "equity:opening", Indent: "    ", Sep: "  "}}}}, Blank: 1})
+	if long {
+		for i := 0; i < 8; i++ {
+			c := " " + strings.Repeat("x", 38)
+			j.Entries = append(j.Entries, m.Entry{CommentLine: &c})
+		}
+	}
+	return j
+}
+
+func walkRel(from, to int) string {
+	a, b := gen.WSNames[from], gen.WSNames[to]
+	switch {
+	case strings.HasPrefix(a, "sub/") && strings.HasPrefix(b, "sub/"):
+		return strings.TrimPrefix(b, "sub/")
+	case strings.HasPrefix(a, "sub/"):
+		return "../" + b
+	}
+	return b
+}
+
+func TestC12Walk(t *testing.T) {
+	defer recC12.Flush()
+	limit := 300
+	if tier() == "thorough" {
+		limit = 12000
+	}
+	n := 0
+	rapid.Check(t, func(t *rapid.T) {
+		if n >= limit && recC12.Evals() > 0 {
+			return
+		}
+		n++
+		const files = 4
+		drawIncs := func(f int) []int {
+			var others []int
+			for k := 0; k < files; k++ {
+				if k != f && k != 0 {
+					others = append(others, k)
+				}
+			}
+			perm := rapid.Permutation(others).Draw(t, "order")
+			return perm[:rapid.IntRange(0, len(perm)).Draw(t, "nincs")]
+		}
+		c := &C12Case{Depth: rapid.IntRange(2, 3).Draw(t, "depth")}
+		short := len(m.Render(c12WalkJournal(0, []int{1, 2, 3}, false, 0)).Text)
+		c.MaxSize = short + 60
+		ver := 0
+		for f := 0; f < files; f++ {
+			c.Init = append(c.Init, c12WalkJournal(f, drawIncs(f), rapid.IntRange(0, 3).Draw(t, "long") == 0, ver))
+		}
+		if rapid.Bool().Draw(t, "rootbygraph") {
+			c.RootName = "00-all.journal"
+		}
+		steps := rapid.IntRange(4, 12).Draw(t, "steps")
+		for s := 0; s < steps; s++ {
+			f := rapid.IntRange(0, files-1).Draw(t, "file")
+			ver++
+			c.Ops = append(c.Ops, C12Op{File: f, Journal: c12WalkJournal(f, drawIncs(f), rapid.IntRange(0, 2).Draw(t, "long") == 0, ver)})
+		}
+		ds, cls := c12Check(c)
+		recC12.Case(true, mustJSON(c), append(cls, "walk")...)
+		report(t, recC12, "c12", c, ds)
+	})
+}
